@@ -29,6 +29,9 @@ ROOTED_SUBST = ("((((E_2004:0.011,F_2004:0.0095):0.0105,D_2003:0.0088):0.031,(C_
                 "A_2000:0.0192);")
 UNROOTED = "(A_2000:0.1,B_2001:0.2,(C_2002.5:0.1,(D_2003:0.1,(E_2004:0.15,F_2004:0.05):0.1):0.1):0.1);"
 
+YMD = {"A_2000": "2000-01-01", "B_2001": "2001-01-01", "C_2002.5": "2002-07-02", "D_2003": "2003-01-01",
+       "E_2004": "2004-01-01", "F_2004": "2004-01-01"}
+CSV_SHIFT = 0.25   # the csv deliberately disagrees with the dates in the names
 _DATA = {}
 
 
@@ -38,6 +41,21 @@ def data_dir() -> Path:
         (d / "aln.fa").write_text("".join(f">{k}\n{v}\n" for k, v in SEQS.items()))
         (d / "rooted.nwk").write_text(ROOTED + "\n")
         (d / "rooted_subst.nwk").write_text(ROOTED_SUBST + "\n")
+        # the same data with sampling dates given three other ways
+        (d / "dates.csv").write_text("strain,date\n" + "".join(f"{k},{float(k.rsplit('_', 1)[1]) + CSV_SHIFT}\n" for k in SEQS))
+        ren = {k: k.rsplit("_", 1)[0] + "_" + YMD[k] for k in SEQS}
+        (d / "aln_ymd.fa").write_text("".join(f">{ren[k]}\n{v}\n" for k, v in SEQS.items()))
+        t = ROOTED
+        for k, v in ren.items():
+            t = t.replace(k + ":", v + ":")
+        (d / "rooted_ymd.nwk").write_text(t + "\n")
+        # a codon alignment (48 sites, in-frame stop codons replaced) for MG94
+        def nostop(q):
+            cod = [q[i:i + 3] for i in range(0, 48, 3)]
+            return "".join("GCT" if c in ("TAA", "TAG", "TGA") else c for c in cod)
+        (d / "aln_codon.fa").write_text("".join(f">{k}\n{nostop(v)}\n" for k, v in SEQS.items()))
+        (d / "meta.csv").write_text("strain,date,location\n" + "".join(
+            f"{k},{k.rsplit('_', 1)[1]},{'north' if i % 2 else 'south'}\n" for i, k in enumerate(SEQS)))
         (d / "unrooted.nwk").write_text(UNROOTED + "\n")
         _DATA["d"] = d
     return _DATA["d"]
